@@ -216,7 +216,6 @@ func (s *Scanner) scanComment() string {
 		goto exit
 	}
 	// # - style comment, as default
-	s.next()
 	for s.ch != '\n' && s.ch >= 0 {
 		if s.ch == '\r' {
 			numCR++
